@@ -239,4 +239,93 @@ theorem head_mem_prog {P : Progs} {s : State} (h : CodeOf P s) {t : Tid} {th : T
   | nil => simp [hc] at hh
   | cons j r => simp [hc] at hh; subst hh; simp
 
+/-! ### watcher names are stable; published entries carry their owner's name -/
+
+theorem nameOf_step_mono {P : Progs} {s s' : State} {l : Label} (hinv : Inv P s) (hs : step P s l = some s')
+    (w : Wid) (n : Name) (h : nameOf s w = some n) : nameOf s' w = some n := by
+  cases l with
+  | spawn t op =>
+    simp only [step] at hs
+    split at hs
+    · cases hs; exact h
+    · cases hs
+  | tau t =>
+    cases hth : s.threads t with
+    | none => simp [step, hth] at hs
+    | some th =>
+      cases hcode : th.code with
+      | nil => simp [step, hth, hcode] at hs
+      | cons i rest =>
+        rcases step_wset hth hcode hs with ⟨_, x, _⟩ | ⟨_, _, _, _, x⟩ | ⟨_, _, _, _, _, x⟩
+        · rw [x w]; exact h
+        · rw [x w]
+          have hfr := hinv.fresh s.nextW (Nat.le_refl _)
+          have : w ≠ s.nextW := by
+            intro e; rw [e] at h; simp [nameOf, hfr] at h
+          simp [this]; exact h
+        · rw [x w]; exact h
+
+/-- every entry of the published snapshot carries the name of the watcher that installed it -/
+theorem ownS_reachable {P : Progs} (hP : P.wf = true) (s : State) (h : Reachable (step P) init s) :
+    ∀ e ∈ s.static, nameOf s e.owner = some e.desc.name := by
+  induction h with
+  | init => intro e he; simp [init] at he
+  | @step s s' l hr hs ih =>
+    have hinv := (inv2_reachable hP s hr).1
+    intro e he
+    have hst : s'.static = s.static ∨ s'.static = s.mtab := by
+      cases l with
+      | spawn t op =>
+        simp only [step] at hs
+        split at hs
+        · cases hs; left; rfl
+        · cases hs
+      | tau t =>
+        cases hth : s.threads t with
+        | none => simp [step, hth] at hs
+        | some th =>
+          cases hcode : th.code with
+          | nil => simp [step, hth, hcode] at hs
+          | cons i rest =>
+            rcases step_static hth hcode hs with ⟨h1, _⟩ | ⟨_, _, h1⟩
+            · left; exact h1
+            · right; exact h1
+    rcases hst with h1 | h1
+    · rw [h1] at he; exact nameOf_step_mono hinv hs _ _ (ih e he)
+    · rw [h1] at he; exact nameOf_step_mono hinv hs _ _ (hinv.ownM e he)
+
+/-- Close of every watcher ever created for target `n` has returned -/
+def AllClosed (s : State) (n : Name) : Prop := ∀ w, nameOf s w = some n → w ∈ s.closeRet
+
+/-- side condition: no `watcherSet.Add` for the name `n` is executed (no re-Watch of `n`) -/
+def NoWatchOf (n : Name) (x : State) : Label → Prop
+  | .spawn _ _ => True
+  | .tau t => ∀ th, x.threads t = some th → th.skip = false → th.code.head? = some .setAdd → th.key ≠ n
+
+theorem allClosed_step {P : Progs} {n : Name} {s s' : State} {l : Label}
+    (h : AllClosed s n) (hC : NoWatchOf n s l) (hs : step P s l = some s') : AllClosed s' n := by
+  intro w hw
+  have keep : nameOf s w = some n → w ∈ s'.closeRet := fun h0 => step_closeRet hs w (h w h0)
+  cases l with
+  | spawn t op =>
+    simp only [step] at hs
+    split at hs
+    · cases hs; exact h w hw
+    · cases hs
+  | tau t =>
+    cases hth : s.threads t with
+    | none => simp [step, hth] at hs
+    | some th =>
+      cases hcode : th.code with
+      | nil => simp [step, hth, hcode] at hs
+      | cons i rest =>
+        rcases step_wset hth hcode hs with ⟨_, x, _⟩ | ⟨rfl, hsk, _, _, x⟩ | ⟨_, _, _, _, _, x⟩
+        · exact keep (x w ▸ hw)
+        · rw [x w] at hw
+          by_cases e : w = s.nextW
+          · simp only [e, if_true, Option.some.injEq] at hw
+            exact absurd hw (hC th hth hsk (by simp [hcode]))
+          · simp only [e, if_false] at hw; exact keep hw
+        · exact keep (x w ▸ hw)
+
 end GB.C11
